@@ -10,8 +10,32 @@ import ast
 import itertools
 
 
+_DEFS = {}      # name -> defining expression, for locals assigned exactly once in the searched function
+
+
 def _is_meta(n):
     return isinstance(n, ast.Name) and n.id.startswith('V_')
+
+
+_FLIP = {ast.Gt: ast.Lt, ast.GtE: ast.LtE}
+
+
+def _canon_compare(n):
+    """a > b is matched as b < a"""
+    if isinstance(n, ast.Compare) and len(n.ops) == 1 and type(n.ops[0]) in _FLIP:
+        return ast.Compare(left=n.comparators[0], ops=[_FLIP[type(n.ops[0])]()], comparators=[n.left])
+    return n
+
+
+def _single_defs(root):
+    cnt = {}
+    val = {}
+    for n in ast.walk(root):
+        if isinstance(n, ast.Name) and isinstance(n.ctx, ast.Store):
+            cnt[n.id] = cnt.get(n.id, 0) + 1
+        if isinstance(n, ast.Assign) and len(n.targets) == 1 and isinstance(n.targets[0], ast.Name):
+            val[n.targets[0].id] = n.value
+    return {k: v for k, v in val.items() if cnt.get(k) == 1}
 
 
 def _match(p, n, b):
@@ -34,6 +58,37 @@ def _match(p, n, b):
         nb = dict(b)
         nb[p.arg] = n.arg
         return nb
+    p = _canon_compare(p)
+    n = _canon_compare(n)
+    if isinstance(p, ast.If) and isinstance(n, ast.If):
+        # a condition hoisted into a single-assignment local, and `if not c: B else: A` for `if c: A else: B`
+        test, body, orelse = n.test, n.body, n.orelse
+        if isinstance(test, ast.Name) and not _is_meta(p.test) and not isinstance(p.test, ast.Name) and test.id in _DEFS:
+            test = _DEFS[test.id]
+        alts = [(test, body, orelse)]
+        if isinstance(test, ast.UnaryOp) and isinstance(test.op, ast.Not):
+            alts.append((test.operand, orelse, body))
+        if isinstance(p.test, ast.UnaryOp) and isinstance(p.test.op, ast.Not) and orelse:
+            alts.append((ast.UnaryOp(op=ast.Not(), operand=test), orelse, body))
+        for t_, b_, o_ in alts:
+            nb = _match(p.test, t_, b)
+            if nb is None:
+                continue
+            for nb1 in _iter_list(p.body, b_, nb):
+                if not p.orelse:
+                    return nb1
+                for nb2 in _iter_list(p.orelse, o_, nb1):
+                    return nb2
+        return None
+    if isinstance(p, ast.BinOp) and isinstance(n, ast.BinOp) and type(p.op) is type(n.op) and isinstance(p.op, ast.Mult):
+        # a * b also matches b * a
+        for l_, r_ in ((n.left, n.right), (n.right, n.left)):
+            nb = _match(p.left, l_, b)
+            if nb is not None:
+                nb = _match(p.right, r_, nb)
+                if nb is not None:
+                    return nb
+        return None
     if type(p) is not type(n):
         return None
     for fld, pv in ast.iter_fields(p):
@@ -69,30 +124,37 @@ def _is_dots(s):
     return isinstance(s, ast.Expr) and isinstance(s.value, ast.Constant) and s.value.value is Ellipsis
 
 
-def _match_list(ps, ns, b):
-    """statement / element lists; an Ellipsis statement matches any run"""
-    if any(_is_dots(p) for p in ps if isinstance(p, ast.stmt)):
-        # subsequence match
+def _iter_list(ps, ns, b):
+    """all ways of matching a statement / element list; an Ellipsis statement matches any run"""
+    if ps and all(isinstance(p, ast.stmt) for p in ps):
+        # statement lists match as a subsequence: unrelated statements in between (a log call, a temporary)
+        # do not break the match; `...` is accepted and means the same
         def rec(i, j, bb):
             if i == len(ps):
-                return bb
+                yield bb
+                return
             if _is_dots(ps[i]):
-                return rec(i + 1, j, bb)
+                yield from rec(i + 1, j, bb)
+                return
             for k in range(j, len(ns)):
                 nb = _match(ps[i], ns[k], bb)
                 if nb is not None:
-                    r = rec(i + 1, k + 1, nb)
-                    if r is not None:
-                        return r
-            return None
-        return rec(0, 0, b)
+                    yield from rec(i + 1, k + 1, nb)
+        yield from rec(0, 0, b)
+        return
     if len(ps) != len(ns):
-        return None
+        return
     for p, n in zip(ps, ns):
         b = _match(p, n, b)
         if b is None:
-            return None
-    return b
+            return
+    yield b
+
+
+def _match_list(ps, ns, b):
+    for r in _iter_list(ps, ns, b):
+        return r
+    return None
 
 
 def _candidates(root, want_stmt):
@@ -117,6 +179,8 @@ def find(root, patterns, binding=None, nodes_out=None):
     binding.  Returns (binding, missing): binding dict if all matched (missing
     empty), else the best partial binding and the list of unmatched patterns."""
     pats = [(p, parse_pattern(p)) for p in patterns]
+    _DEFS.clear()
+    _DEFS.update(_single_defs(root))
 
     matched = []
 
@@ -130,14 +194,14 @@ def find(root, patterns, binding=None, nodes_out=None):
                 for fld in ('body', 'orelse', 'finalbody'):
                     body = getattr(n, fld, None)
                     if isinstance(body, list) and body and isinstance(body[0], ast.stmt):
-                        for k in range(len(body) - len(pn) + 1):
-                            nb = _match_list(pn, body[k:k + len(pn)], b)
-                            if nb is not None:
-                                matched.append(body[k])
-                                r = rec(i + 1, nb)
-                                if r is not None:
-                                    return r
-                                matched.pop()
+                        nb = _match_list(pn, body, b)
+                        if nb is not None:
+                            first = [x for x in body if not _is_dots(pn[0]) and _match(pn[0], x, b) is not None]
+                            matched.append(first[0] if first else body[0])
+                            r = rec(i + 1, nb)
+                            if r is not None:
+                                return r
+                            matched.pop()
             return None
         for n in _candidates(root, kind == 'stmt'):
             nb = _match(pn, n, b)
@@ -170,9 +234,8 @@ def rec_single(root, kind, pn):
             for fld in ('body', 'orelse', 'finalbody'):
                 body = getattr(n, fld, None)
                 if isinstance(body, list) and body and isinstance(body[0], ast.stmt):
-                    for k in range(len(body) - len(pn) + 1):
-                        if _match_list(pn, body[k:k + len(pn)], {}) is not None:
-                            return True
+                    if _match_list(pn, body, {}) is not None:
+                        return True
         return False
     for n in _candidates(root, kind == 'stmt'):
         if _match(pn, n, {}) is not None:
